@@ -24,6 +24,7 @@ const (
 	OpBalance   = "Balance"
 	OpSpendable = "SpendableOutputs"
 	OpBlock     = "block"
+	OpDeliver   = "deliver"
 	OpRestart   = "restart"
 	OpBarrier   = "barrier"
 	OpSleep     = "sleep"
@@ -91,6 +92,10 @@ type Event struct {
 
 	// block / restart / barrier
 	Height      uint64                  `json:"height,omitempty"`
+	From        uint64                  `json:"delivered_from,omitempty"` // heights applied to the wallet store within this event
+	To          uint64                  `json:"delivered_to,omitempty"`
+	Proofs      int                     `json:"proofs_verified,omitempty"` // inputs whose proof was verified against the returned basis
+	StaleAtTip  bool                    `json:"proofs_stale_at_manager_tip,omitempty"`
 	Created     []OutRec                `json:"created,omitempty"`
 	Spent       []types.SiacoinOutputID `json:"spent,omitempty"`
 	Pool        []types.TransactionID   `json:"pool,omitempty"`
